@@ -54,6 +54,14 @@ def main():
 
     if a.shard:
         i, n = map(int, a.shard.split('/'))
+        # a runaway (a generator that never stops and keeps everything, in the tool or in a reference model fed with a broken ruleset) gets a MemoryError
+        # in its own process instead of exhausting the machine
+        try:
+            import resource
+            lim = int(os.environ.get('VERIF_WORKER_MEM_GB', '10')) << 30
+            resource.setrlimit(resource.RLIMIT_AS, (lim, lim))
+        except Exception:
+            pass
         run = evidence.Run(a.prop, a.tier, a.seed, mod.LEVEL, mod.RULE, shard=(i, n))
         repo.scratch()
         rng = random.Random(stable_seed(a.seed, a.prop, a.tier, i))
